@@ -1,7 +1,13 @@
 ------------------------------ MODULE Lookup_Trace ------------------------------
 (* Trace validation for C16: each trace is one lookup configuration and the   *)
 (* observation of val2idx for each probe value (one call per probe).          *)
+(* kind "val": val2idx(value); "time": time2idx(datetime) on a coordinate     *)
+(* with CF units; "t2t": the older time2t(datetime, ttype) front-end.  For    *)
+(* the datetime kinds the looked-up value is computed here, with the calendar *)
+(* of Calendar.tla, from the civil fields of the datetime object passed.      *)
 EXTENDS Lookup, TraceLib
+
+Cal == INSTANCE Calendar
 
 VARIABLES tid, l
 tvars == <<tid, l>>
@@ -14,8 +20,29 @@ TStep ==
   IN /\ l = 0 /\ l' = 1 /\ tid' = tid
      /\ ChkT(tr, 0, "configuration: coordinate not strictly monotone", Monotone(tr.c) /\ Len(tr.c) >= 2)
      /\ \A p \in 1..Len(tr.obs) :
-          LET o == tr.obs[p] IN
-          IF AllowedObs(cf, o.v, o.ob, o.w) THEN TRUE
+          LET o == tr.obs[p]
+              dn(y, m, d) == Cal!DayNum("std", y, m, d)
+              \* datetime front-ends: the value is derived by the specification
+              \* from the civil fields of the datetime that was passed
+              val == IF tr.kind = "val" THEN o.v ELSE TimeVal(dn, tr.unit, tr.ref, o.civ)
+          IN
+          IF tr.kind # "val" /\ ~TimeExact(dn, tr.unit, tr.ref, o.civ)
+          THEN Say([v |-> "MISMATCH", tid |-> tr.tid, l |-> p,
+                    what |-> "generator: datetime probe is not a whole number of units from the reference",
+                    civ |-> o.civ]) /\ FALSE
+          ELSE IF tr.kind # "val" /\ val # o.v
+          THEN Say([v |-> "MISMATCH", tid |-> tr.tid, l |-> p,
+                    what |-> "generator: datetime probe does not encode the intended value",
+                    civ |-> o.civ, value |-> o.v, derived |-> val]) /\ FALSE
+          ELSE IF tr.kind = "t2t"
+          THEN (IF AllowedT2t(cf, tr.ttype, val, o.ob) THEN TRUE
+                ELSE Say([v |-> "MISMATCH", tid |-> tr.tid, l |-> p,
+                    what |-> "time2t observation not allowed by the lookup property",
+                    value |-> val, ob |-> o.ob, ttype |-> tr.ttype,
+                    nearest |-> Nearest(cf, val), cells |-> Cells(cf, val),
+                    cfg |-> [c |-> tr.c, e |-> tr.e, rep |-> tr.rep]]) /\ FALSE)
+          ELSE
+          IF AllowedObs(cf, val, o.ob, o.w) THEN TRUE
           ELSE Say([v |-> "MISMATCH", tid |-> tr.tid, l |-> p,
                     what |-> "observation not allowed by the lookup property",
                     value |-> o.v, ob |-> o.ob, warned |-> o.w,
